@@ -123,6 +123,18 @@ def run(ck, m):
                         v = r.value
                         ok = _ok_ret(v)
                         ck.ob("R1", r, ok, f"{cname}.{fn.name} must return self (no change) or a newly constructed object; returns `{short(v, 50)}`", stmt=f"{cname}.{fn.name}: {short(r, 70)}")
+            # "nothing changed" is decided by what was GIVEN (no field, no namespace), never by comparing the given values with the current ones: equality is
+            # not identity (True == 1 == 1.0, 0.0 == False, equal containers are distinct objects) - an update that is skipped because the values compare equal leaves
+            # a field holding an object of another type / identity than the one just given
+            if cname in ("RenderArgs", "ArgsNamespace") and fn.name == "update":
+                from tiv.astutil import guards as _guards
+                from tiv.sem import trace as _trace
+                for r in body_walk(fn):
+                    if isinstance(r, ast.Return) and r.value is not None and norm(r.value) == "self":
+                        cmp_ = [t_ for t_, _b in _guards(r) for x in ast.walk(_trace(fn, t_)) if isinstance(x, ast.Compare) and any(isinstance(o, (ast.Eq, ast.NotEq)) for o in x.ops)
+                                and not any(isinstance(c_, ast.Constant) and isinstance(c_.value, int) for c_ in [x.left] + x.comparators)]
+                        ck.ob("R1", r, not cmp_, f"{cname}.update returns self under a comparison of values (`{short(cmp_[0], 70) if cmp_ else ''}`): values that compare equal are not the same value "
+                              "(True == 1, 0.0 == False, an equal but distinct list): the field keeps the old object although another one was given", stmt=f"{cname}.update: `return self` decided by what was given, not by ==")
     ck.expect(n1 >= 25, f"expected >= 25 non-constructor methods of the immutable classes, found {n1}")
     # __setattr__ of ArgsNamespace always raises
     sa = m.get(TY, "ArgsNamespace.__setattr__")
